@@ -44,6 +44,8 @@ pub fn run(thorough: bool) -> Vec<Part> {
             part.violations.push(v.clone());
         }
         parts.push(part);
+    } else {
+        parts.push(crate::props::srv::c13_server(thorough));
     }
     parts
 }
